@@ -444,6 +444,17 @@ def apply_op(rep, op, idx, run_seed, side_hook=None):
     if k == 'perturb_net':
         perturb_net(rep, run_seed, idx, op['style'])
         return {'ok': 1}
+    if k == 'save_ckpt':
+        # "keep the best checkpoint": the bytes live on the simulated disk and survive a crash
+        rep.saved_ckpt = rep.checkpoint()
+        return {'ok': 1}
+    if k == 'load_ckpt':
+        # "restore the best checkpoint into the live model and go on"
+        if getattr(rep, 'saved_ckpt', None) is None:
+            return {'ok': 0}
+        sd = torch.load(io.BytesIO(rep.saved_ckpt), weights_only=True)
+        res = m.load_state_dict(sd, strict=False)
+        return {'missing': list(res.missing_keys), 'unexpected': list(res.unexpected_keys)}
     if k == 'read_cost':
         return {'cost': cost_values(m)}
     if k == 'read_summary':
